@@ -1504,7 +1504,8 @@ func ruleCODEC4(c *Ctx) {
 				return f != nil && f.Name() == "Index"
 			}():
 				class = localOps[op]
-			case strings.HasPrefix(src, "c.addConstant(") && strings.HasSuffix(src, ")") && strings.Count(src, "c.addConstant(") == 1 && func() bool {
+			case func() bool {
+				// the operand is, as a whole, one call of Compiler.addConstant
 				call, ok := ast.Unparen(a).(*ast.CallExpr)
 				return ok && isMethodOf(Callee(p, call), p.Types, "Compiler", "addConstant")
 			}():
